@@ -540,6 +540,10 @@ func operatorLikeNames(t *rapid.T, tree *m.Node, u *Universe) {
 
 func drawStateless(t *rapid.T) []string {
 	var out []string
+	// near-misses declare nothing: another case, padding, a prefix
+	if rapid.IntRange(0, 5).Draw(t, "sl_nearmiss") == 0 {
+		out = append(out, rapid.SampledFrom([]string{"C_SUM", "C_Id", " c_cat", "c_not ", "c_", "c_cnt2", "C_CNT", "Andn"}).Draw(t, "sl_nearmiss_name"))
+	}
 	for _, n := range []string{"andn", "c_cat", "c_fail", "c_id", "c_not", "c_sum", "orn"} { // never c_cnt: it is stateful
 		if rapid.IntRange(0, 3).Draw(t, "sl_"+n) == 0 {
 			out = append(out, n)
